@@ -1,19 +1,20 @@
 #!/bin/sh
-# tools/confirm_seed.sh <worktree> <name>: confirm (suite green with change, demo fails with / passes without), archive under seeded/<name>, remove worktree
+# tools/confirm_seed.sh <worktree> <name>: confirm (suite green with change, demo fails with / passes without), archive under
+# seeded/<name>, remove worktree. Does not use `git stash` (the stash is shared by all worktrees of a repository).
 WT="$1"; NAME="$2"
 cd "$WT" || exit 2
 git diff --quiet -- src && { echo "no change applied in $WT"; exit 2; }
+git diff -- src > /tmp/confirm_$NAME.diff
 SUITE=$(PYTHONPATH=$WT/src /venv/bin/python -m pytest -q -p no:cacheprovider 2>&1 | tail -1 | sed 's/\x1b\[[0-9;]*m//g')
 PYTHONPATH=$WT/src PYTHONHASHSEED=0 timeout 300 /venv/bin/python demo.py >/dev/null 2>&1; WITH=$?
-git stash -q -- src
+git checkout -q -- src
 PYTHONPATH=$WT/src PYTHONHASHSEED=0 timeout 300 /venv/bin/python demo.py >/dev/null 2>&1; WITHOUT=$?
-git stash pop -q
+git apply /tmp/confirm_$NAME.diff
 echo "$NAME suite=[$SUITE] demo_with_change_rc=$WITH demo_without_rc=$WITHOUT"
 case "$SUITE" in *"1895 passed"*) ;; *) echo "SUITE NOT GREEN"; exit 1;; esac
 [ "$WITH" != 0 ] && [ "$WITHOUT" = 0 ] || { echo "DEMO DOES NOT DISCRIMINATE"; exit 1; }
-git diff -- src > patch.diff
 mkdir -p /verif/seeded/$NAME
-cp patch.diff demo.py /verif/seeded/$NAME/
+cp /tmp/confirm_$NAME.diff /verif/seeded/$NAME/patch.diff; cp demo.py /verif/seeded/$NAME/
 python3 - "$WT" "$NAME" "$SUITE" "$WITH" "$WITHOUT" <<'PY'
 import json, sys
 wt, name, suite, w, wo = sys.argv[1:6]
